@@ -252,6 +252,15 @@ def special_C28(seed, tier, model, deadline):
                         stop_on_mismatch=False)
         progs.append(r.ops)
         ref.append([ol for op, ol, ml, obs in r.log])
+    # directed: messages with repeated / odd content-length fields and status values (anything picked out of a set or
+    # dict of received values would show here)
+    from corr import replay as _replay
+    for key, ops in _body_programs(seed, {'quick': 80, 'thorough': 1500}.get(tier, 80)):
+        if time.time() > deadline:
+            break
+        r = _replay(ops, None)
+        progs.append(ops)
+        ref.append([ol for op, ol, ml, obs in r.log])
     payload = ''.join(json.dumps(enc_json(ops)) + '\n' for ops in progs).encode()
     fails = []
     runs = 0
@@ -833,3 +842,248 @@ def special_C14(seed, tier, model, deadline):
         dist.setdefault(kind, {})[p] = c
     return {'failures': fails, 'mismatches': mism,
             'coverage': {'grammar_programs': progs, 'grammar_ops': nops, 'grammar_blocks_by_kind_and_first_broken_rule': dist}}
+
+
+def _boundary_programs(seed, n):
+    """header blocks whose HPACK-encoded length sits within a few bytes of the peer's frame size (and of twice it), sent
+    as plain HEADERS, HEADERS with priority fields and PUSH_PROMISE (first header block of the connection, so that a
+    fresh hpack.Encoder predicts the length); also data frames and padding at the limits"""
+    import random
+    import hpack
+    import wire
+    REQ = [(b':method', b'GET'), (b':scheme', b'https'), (b':path', b'/'), (b':authority', b'x')]
+    blk = wire.hpack_literal_block
+
+    base_len = {}
+
+    def filler_for(base, target):
+        """length n such that encode(base + [('x-fill', 'a'*n)]) has exactly `target` bytes (None if not hit);
+        'a' costs 5 bits in the HPACK Huffman code, so the answer is near (target - base) * 8 / 5"""
+        enc_len = lambda k: len(hpack.Encoder().encode(base + [(b'x-fill', b'a' * k)]))
+        key = repr(base)
+        if key not in base_len:
+            base_len[key] = enc_len(0)
+        guess = max(0, (target - base_len[key] - 2) * 8 // 5)
+        for k in [guess + d for d in (0, -1, 1, -2, 2, -3, 3, -4, 4, -5, 5, -6, 6)]:
+            if k >= 0 and enc_len(k) == target:
+                return k
+        return None
+
+    for k in range(n):
+        rng = random.Random((seed * 49979687 + k) & 0xFFFFFFFF)
+        limit = rng.choice([16384, 16384, 16384, 20000, 32768])
+        mult = rng.choice([1, 1, 1, 2])
+        delta = rng.choice(range(-9, 10))
+        target = limit * mult + delta
+        how = rng.choice(['plain', 'prio', 'prio', 'push', 'push'])
+        peer = [(5, limit)] if limit != 16384 else []
+        if how == 'push':
+            ops = [{'op': 'new', 'c': 0, 'client': False, 'vo': 1, 'no': 1, 'vi': 1, 'ni': 1, 'enc': None},
+                   {'op': 'initiate_connection', 'c': 0},
+                   {'op': 'recv', 'c': 0, 'data': wire.PREFACE + wire.settings_frame(peer) + wire.settings_frame(ack=True)},
+                   {'op': 'recv', 'c': 0, 'data': wire.headers_frames(1, blk([(a, b, False) for a, b in REQ]), end_stream=False)}]
+            nfill = filler_for(REQ, target)
+            if nfill is None:
+                continue
+            ops.append({'op': 'push_stream', 'c': 0, 'sid': 1, 'promised': 2,
+                        'headers': [(a, b, False) for a, b in REQ] + [(b'x-fill', b'a' * nfill, False)]})
+            ops.append({'op': 'send_headers', 'c': 0, 'sid': 1, 'headers': [(b':status', b'200', False)], 'es': False})
+        else:
+            ops = [{'op': 'new', 'c': 0, 'client': True, 'vo': 1, 'no': 1, 'vi': 1, 'ni': 1, 'enc': None},
+                   {'op': 'initiate_connection', 'c': 0},
+                   {'op': 'recv', 'c': 0, 'data': wire.settings_frame(peer) + wire.settings_frame(ack=True)}]
+            nfill = filler_for(REQ, target)
+            if nfill is None:
+                continue
+            op = {'op': 'send_headers', 'c': 0, 'sid': 1, 'es': rng.random() < 0.5,
+                  'headers': [(a, b, False) for a, b in REQ] + [(b'x-fill', b'a' * nfill, False)]}
+            if how == 'prio':
+                op.update({'pw': rng.choice([1, 16, 256]), 'pd': rng.choice([None, 0, 3]), 'pe': rng.choice([None, True, False])})
+            ops.append(op)
+            ops.append({'op': 'send_headers', 'c': 0, 'sid': 3, 'headers': [(a, b, False) for a, b in REQ], 'es': True})
+        # data at the limit, with and without padding
+        if how != 'push' and rng.random() < 0.5:
+            pad = rng.choice([None, 0, 1, 255])
+            room = limit - (0 if pad is None else pad + 1)
+            ops.insert(-1, {'op': 'recv', 'c': 0, 'data': wire.window_update(0, 2**20) + wire.settings_frame([(4, 2**20)])})
+            ops.insert(-1, {'op': 'send_data', 'c': 0, 'sid': 1, 'data': b'd' * max(0, room + rng.choice([-1, 0, 0, 1])), 'es': False, 'pad': pad})
+        yield 'boundary-%d' % k, ops
+
+
+def _run_boundary(pid, oracle, seed, tier, model, deadline, quick_n):
+    import time
+    n = {'quick': quick_n, 'thorough': 1500}.get(tier, quick_n)
+    fails, mism, progs, nops = [], [], 0, 0
+    for key, ops in _boundary_programs(seed, n):
+        if time.time() > deadline:
+            break
+        _judge(pid, ops, key, seed, model, oracle, fails, mism)
+        progs += 1
+        nops += len(ops)
+    return {'failures': fails, 'mismatches': mism, 'coverage': {'boundary_programs': progs, 'boundary_ops': nops}}
+
+
+def special_C13(seed, tier, model, deadline):
+    """header blocks at the frame-size boundary (plain, with priority fields, pushed) under oracle_C13"""
+    from oracles import oracle_C13
+    return _run_boundary('C13', oracle_C13, seed, tier, model, deadline, 50)
+
+
+_special_C02_zoo = special_C02
+
+
+def special_C02(seed, tier, model, deadline):
+    """the state zoo, then header blocks / DATA at the frame-size boundary, under oracle_C02"""
+    from oracles import oracle_C02
+    a = _special_C02_zoo(seed, tier, model, deadline)
+    b = _run_boundary('C02', oracle_C02, seed, tier, model, deadline, 50)
+    a['failures'] += b['failures']
+    a['mismatches'] += b['mismatches']
+    a['coverage'].update(b['coverage'])
+    return a
+
+
+def _body_programs(seed, n):
+    """messages and their bodies as a peer may send them: content-length present / absent / repeated (same or different
+    values) / not a number, body shorter, equal or longer than announced and cut into DATA frames, ended by DATA, by the
+    first HEADERS or by trailers; responses to GET / HEAD / CONNECT (plain and extended) requests with ordinary, 1xx,
+    204, 304 and non-numeric :status values"""
+    import random
+    import wire
+    blk = lambda hs: wire.hpack_literal_block([(a, b, False) for a, b in hs])
+    for k in range(n):
+        rng = random.Random((seed * 86028121 + k) & 0xFFFFFFFF)
+        client = rng.random() < 0.6
+        ops = [{'op': 'new', 'c': 0, 'client': client, 'vo': 1, 'no': 1, 'vi': rng.choice([1, 1, 1, 0]), 'ni': 1, 'enc': rng.choice([None, None, 'utf-8'])},
+               {'op': 'initiate_connection', 'c': 0},
+               {'op': 'recv', 'c': 0, 'data': (b'' if client else wire.PREFACE) + wire.settings_frame([]) + wire.settings_frame(ack=True)}]
+        n_len = rng.choice([0, 1, 5, 10, 100])
+        cl = rng.choice([None, None, str(n_len).encode(), str(n_len).encode(), str(n_len + 1).encode(), b'0', b'abc', b'', b'-1', b' 5', b'1_0', b'+5'])
+        cls = []
+        if cl is not None:
+            cls.append(cl)
+            r = rng.random()
+            if r < 0.25:
+                cls.append(cl)                                   # repeated, same value
+            elif r < 0.5:
+                cls.append(rng.choice([b'0', b'7', str(n_len + 3).encode(), b'abc']))   # repeated, different value
+                if rng.random() < 0.3:
+                    cls.append(str(n_len + 9).encode())
+        extra = [(b'content-length', v) for v in cls]
+        body = b'b' * rng.choice([n_len, n_len, max(0, n_len - 1), n_len + 1, 0])
+        cuts = sorted(rng.randrange(0, len(body) + 1) for _ in range(rng.choice([0, 0, 1, 2])))
+        chunks = [body[a:b] for a, b in zip([0] + cuts, cuts + [len(body)])]
+        ending = rng.choice(['data', 'data', 'headers', 'trailers', 'trailers', 'none'])
+        if client:
+            method = rng.choice([b'GET', b'GET', b'HEAD', b'CONNECT', b'CONNECT', b'POST'])
+            req = [(b':method', method), (b':scheme', b'https'), (b':path', b'/'), (b':authority', b'x')]
+            if method == b'CONNECT' and rng.random() < 0.6:
+                req.append((b':protocol', b'websocket'))
+            ops.append({'op': 'send_headers', 'c': 0, 'sid': 1, 'headers': [(a, b, False) for a, b in req], 'es': rng.random() < 0.5})
+            if rng.random() < 0.2:
+                recv_info = wire.headers_frames(1, blk([(b':status', rng.choice([b'100', b'103', b'1xx']))]), end_stream=False)
+                ops.append({'op': 'recv', 'c': 0, 'data': recv_info})
+            status = rng.choice([b'200', b'200', b'204', b'304', b'404', b'2xx', b'abc', b'', b'\xff\xfe', b'20', b'2000', b'+200', b' 200'])
+            first = [(b':status', status)] + extra
+        else:
+            method = rng.choice([b'GET', b'POST', b'POST', b'HEAD', b'PUT'])
+            first = [(b':method', method), (b':scheme', b'https'), (b':path', b'/'), (b':authority', b'x')] + extra
+        rng.shuffle(extra)
+        frames = [wire.headers_frames(1, blk(first), end_stream=(ending == 'headers'))]
+        if ending != 'headers':
+            for j, ch in enumerate(chunks):
+                last = j == len(chunks) - 1
+                pad = rng.choice([None, None, 0, 3])
+                frames.append(wire.data_frame(1, ch, end_stream=(ending == 'data' and last), pad=pad))
+            if ending == 'trailers':
+                frames.append(wire.headers_frames(1, blk([(b'x-trailer', b'1')]), end_stream=True))
+        if rng.random() < 0.5:
+            ops.append({'op': 'recv', 'c': 0, 'data': b''.join(frames)})
+        else:
+            for f in frames:
+                ops.append({'op': 'recv', 'c': 0, 'data': f})
+        if not client and rng.random() < 0.5:
+            ops.append({'op': 'send_headers', 'c': 0, 'sid': 1, 'headers': [(b':status', b'200', False)], 'es': True})
+        yield 'body-%d' % k, ops
+
+
+def _run_body(pid, oracle, seed, tier, model, deadline, quick_n):
+    import time
+    n = {'quick': quick_n, 'thorough': 6000}.get(tier, quick_n)
+    fails, mism, progs, nops = [], [], 0, 0
+    for key, ops in _body_programs(seed, n):
+        if time.time() > deadline:
+            break
+        _judge(pid, ops, key, seed, model, oracle, fails, mism)
+        progs += 1
+        nops += len(ops)
+    return {'failures': fails, 'mismatches': mism, 'coverage': {'body_programs': progs, 'body_ops': nops}}
+
+
+def special_C16(seed, tier, model, deadline):
+    """announced versus actual body length in every arrangement (see _body_programs) under oracle_C16"""
+    from oracles import oracle_C16
+    return _run_body('C16', oracle_C16, seed, tier, model, deadline, 300)
+
+
+def special_C17(seed, tier, model, deadline):
+    """odd status / method / content-length values around message bodies (see _body_programs) under oracle_C17"""
+    from oracles import oracle_C17
+    return _run_body('C17', oracle_C17, seed, tier, model, deadline, 300)
+
+
+def special_C11(seed, tier, model, deadline):
+    """settings traffic only: update_settings calls (one / many settings, an invalid value first, in the middle or last,
+    unknown identifiers, more settings than fit one frame) interleaved with the peer's ACKs (none, one, several at
+    once, more than were earned) and the peer's own SETTINGS frames, with streams open so that window changes land"""
+    import random
+    import time
+    import wire
+    from oracles import oracle_C11
+    REQ = [(b':method', b'GET', False), (b':scheme', b'https', False), (b':path', b'/', False), (b':authority', b'x', False)]
+    n = {'quick': 200, 'thorough': 4000}.get(tier, 200)
+    fails, mism, progs, nops = [], [], 0, 0
+    VALID = [(1, 0), (1, 4096), (1, 65536), (2, 0), (2, 1), (3, 0), (3, 7), (4, 0), (4, 100), (4, 65535), (4, 2**31 - 1), (5, 16384),
+             (5, 20000), (5, 2**24 - 1), (6, 0), (6, 100), (8, 0), (8, 1), (9, 5), (0x99, 1), (0xFF, 7), (0x100, 3), (0xFFFF, 9)]
+    INVALID = [(2, 2), (4, 2**31), (5, 16383), (5, 2**24), (8, 2), (3, 2**32), (1, -1), (0x10000, 1), (-1, 0)]
+    for k in range(n):
+        if time.time() > deadline:
+            break
+        rng = random.Random((seed * 67867967 + k) & 0xFFFFFFFF)
+        client = rng.random() < 0.5
+        ops = [{'op': 'new', 'c': 0, 'client': client, 'vo': 1, 'no': 1, 'vi': 1, 'ni': 1, 'enc': None},
+               {'op': 'initiate_connection', 'c': 0}]
+        if rng.random() < 0.7:
+            ops.append({'op': 'recv', 'c': 0, 'data': (b'' if client else wire.PREFACE) + wire.settings_frame([])})
+        elif not client:
+            ops.append({'op': 'recv', 'c': 0, 'data': wire.PREFACE})
+        if client and rng.random() < 0.5:
+            ops.append({'op': 'send_headers', 'c': 0, 'sid': 1, 'headers': REQ, 'es': False})
+        owed = 1
+        for _ in range(rng.randrange(3, 12)):
+            r = rng.random()
+            if r < 0.45:
+                m = rng.choice([1, 1, 1, 2, 3, 5])
+                items = dict(rng.sample(VALID, m))
+                rr = rng.random()
+                if rr < 0.2:
+                    bad = rng.choice(INVALID)
+                    lst = list(items.items())
+                    lst.insert(rng.randrange(len(lst) + 1), bad)
+                    items = dict(lst)
+                elif rr < 0.27:
+                    items = dict([(0x20 + i, i % 7) for i in range(rng.choice([2730, 2731, 2732, 3000]))] + list(items.items()))
+                ops.append({'op': 'update_settings', 'c': 0, 'settings': list(items.items())})
+                owed += 1
+            elif r < 0.8:
+                acks = rng.choice([1, 1, 1, 2, 3])
+                ops.append({'op': 'recv', 'c': 0, 'data': wire.settings_frame(ack=True) * acks})
+            elif r < 0.93:
+                ops.append({'op': 'recv', 'c': 0, 'data': wire.settings_frame([rng.choice(VALID[:20])] if rng.random() < 0.8 else
+                                                                             [rng.choice(VALID[:20]), rng.choice(VALID[:20])])})
+            else:
+                ops.append({'op': 'q', 'c': 0, 'what': 'inbound_window'})
+        _judge('C11', ops, 'settings-%d' % k, seed, model, oracle_C11, fails, mism)
+        progs += 1
+        nops += len(ops)
+    return {'failures': fails, 'mismatches': mism, 'coverage': {'settings_programs': progs, 'settings_ops': nops}}
